@@ -7,6 +7,24 @@
 // controller drives it (skip steps that report finished, CheckSafety, send the
 // command, new peer first pending then caught up) and the oracle below, written
 // from the property statement, is evaluated on every intermediate state.
+//
+// Violation keys (stable; "/joint" or "/plain" = the operator contains
+// ChangePeerV2 steps or not):
+//
+//	leader-removed, leader-demoted, leader-demoted-by-leave   the current leader is removed / demoted
+//	leader-to-absent, leader-to-learner, leader-to-demoting   leadership goes to a peer that must not lead
+//	two-peers-on-store, duplicate-peer-id, leader-lost        malformed intermediate region
+//	voters-below-min:<Step>                                   voters (either joint configuration) < min(origin, target)
+//	unsafe-step:<Step>, unsafe-step-pending:<Step>            the step's own CheckSafety fails at its turn
+//	store-refuses:<Step>                                      the simulated store refuses the command
+//	not-finished:<Step>, enter-joint-single-change            the step does not report finished after it was executed
+//	final-peers, final-leader, final-follower-leads           the final region is not the requested one
+//	merge-peers-mismatch, merge-passive, nil-operator, panic
+//
+// Debug switches: VERIF_C08_SPLIT=1 (keys also carry helper/feature/flags, to
+// list every failing class), VERIF_C08_V2_ALWAYS_JOINT=1 (simulated store enters
+// the joint state for a single-change ChangePeerV2, as pd assumes),
+// VERIF_C08_CPUPROFILE=file (profile worker 0).
 package main
 
 import (
@@ -237,21 +255,21 @@ type expect struct {
 }
 
 type counters struct {
-	Inputs     int64            `json:"inputs"`
-	Produced   int64            `json:"produced"`
-	Refused    int64            `json:"refused"`
-	Operators  int64            `json:"operators"`
-	Steps      int64            `json:"steps"`
-	Skipped    int64            `json:"skipped"`
-	States     int64            `json:"states"`
-	RandRuns   int64            `json:"rand_runs"`
-	StepKinds  map[string]int64 `json:"step_kinds"`
-	ByKind     map[string]int64 `json:"by_kind"`
-	ProdByKind map[string]int64 `json:"prod_by_kind"`
-	Notes      map[string]int64 `json:"notes"`
+	Inputs     int64             `json:"inputs"`
+	Produced   int64             `json:"produced"`
+	Refused    int64             `json:"refused"`
+	Operators  int64             `json:"operators"`
+	Steps      int64             `json:"steps"`
+	Skipped    int64             `json:"skipped"`
+	States     int64             `json:"states"`
+	RandRuns   int64             `json:"rand_runs"`
+	StepKinds  map[string]int64  `json:"step_kinds"`
+	ByKind     map[string]int64  `json:"by_kind"`
+	ProdByKind map[string]int64  `json:"prod_by_kind"`
+	Notes      map[string]int64  `json:"notes"`
 	NoteEx     map[string]string `json:"note_ex"`
-	MaxSteps   int              `json:"max_steps"`
-	MaxSample  []string         `json:"max_sample"`
+	MaxSteps   int               `json:"max_steps"`
+	MaxSample  []string          `json:"max_sample"`
 }
 
 func newCounters() *counters {
@@ -302,12 +320,17 @@ func stepType(s operator.OpStep) string {
 	return strings.TrimPrefix(fmt.Sprintf("%T", s), "operator.")
 }
 
+// VERIF_C08_V2_ALWAYS_JOINT=1 (triage aid): the simulated store enters the joint
+// state also for a ChangePeerV2 with a single change, as pd's IsFinish assumes.
+var v2AlwaysJoint = os.Getenv("VERIF_C08_V2_ALWAYS_JOINT") != ""
+
 func originRegion(in *input, id uint64) *regionsim.Region {
 	var ps []regionsim.Peer
 	for _, p := range in.Origin {
 		ps = append(ps, regionsim.Peer{ID: id*1000 + p.S, Store: p.S, Role: metaRole[p.R]})
 	}
 	r := regionsim.New(id, ps, in.Leader)
+	r.V2AlwaysJoint = v2AlwaysJoint
 	if in.Pending != 0 {
 		if p := r.StorePeer(in.Pending); p != nil {
 			r.Pending[p.ID] = true
@@ -451,11 +474,10 @@ func build(in *input, cl *mockcluster.Cluster, r *regionsim.Region) ([]*operator
 }
 
 type runner struct {
-	cnt        *counters
-	verbose    bool
-	detail     bool // render messages and the step trace (second run of a violating input)
-	lastLeader uint64 // leader store at the end of the last simulated operator
-	lastLen    int    // number of steps of the last simulated operator
+	cnt     *counters
+	verbose bool
+	detail  bool // render messages and the step trace (second run of a violating input)
+	lastLen int  // number of steps of the last simulated operator
 }
 
 func (rn *runner) logf(f string, a ...interface{}) {
@@ -574,7 +596,9 @@ func (rn *runner) simulate(in *input, op *operator.Operator, r *regionsim.Region
 		}
 		if _, isMerge := step.(operator.MergeRegion); !isMerge {
 			if d := step.ConfVerChanged(info); d != 0 {
-				rn.cnt.noteF(typ+":confver-before", func() string { return fmt.Sprintf("step %d %v on %s of %s: ConfVerChanged=%d before the step is executed", i+1, step, r, in, d) })
+				rn.cnt.noteF(typ+":confver-before", func() string {
+					return fmt.Sprintf("step %d %v on %s of %s: ConfVerChanged=%d before the step is executed", i+1, step, r, in, d)
+				})
 			}
 		}
 		// (3) the store executes the command
@@ -607,7 +631,9 @@ func (rn *runner) simulate(in *input, op *operator.Operator, r *regionsim.Region
 				return bad(key, "%s: after the store executed the command the region is %s but the step does not report finished (the operator can never proceed)", at, r), trace
 			}
 			if d := step.ConfVerChanged(after); d != r.ConfVer-cv {
-				rn.cnt.noteF(typ+":confver-after", func() string { return fmt.Sprintf("step %d %v of %s: ConfVerChanged=%d but conf_ver moved by %d (now %s)", i+1, step, in, d, r.ConfVer-cv, r) })
+				rn.cnt.noteF(typ+":confver-after", func() string {
+					return fmt.Sprintf("step %d %v of %s: ConfVerChanged=%d but conf_ver moved by %d (now %s)", i+1, step, in, d, r.ConfVer-cv, r)
+				})
 			}
 		}
 		// (4) invariants of every intermediate state
@@ -631,7 +657,6 @@ func (rn *runner) simulate(in *input, op *operator.Operator, r *regionsim.Region
 			return bad("voters-below-min:"+typ, "after %s: voters incoming=%d outgoing=%d fall below min(origin,target)=%d: %s", at, vi, vo, minVoters, r), trace
 		}
 	}
-	rn.lastLeader = r.LeaderStore()
 	if op.Len() > rn.cnt.MaxSteps {
 		rn.cnt.MaxSteps = op.Len()
 		rn.cnt.MaxSample = []string{in.String()}
@@ -720,31 +745,17 @@ func (rn *runner) eval(in *input, cl *mockcluster.Cluster) (*violation, []string
 	var trace []string
 	produced := false
 	if in.Kind == "scatter" && in.ReqLeader == 0 {
-		// the drawn leader is an index into a map-ordered list: repeat the full
-		// enumeration of the draw until every voter has been the picked leader
-		voters := 0
-		for _, p := range in.Target {
-			if p.R == rV {
-				voters++
+		// every outcome of the random draw is enumerated; which voter a draw
+		// selects depends on Go's map order, so the coverage of every leader
+		// comes from the inputs with an explicit target leader
+		enum.All(64, func() {
+			rn.cnt.RandRuns++
+			v1, t1, p1 := rn.evalOnce(in, cl)
+			produced = produced || p1
+			if v1 != nil && v == nil {
+				v, trace = v1, t1
 			}
-		}
-		picked := map[uint64]bool{}
-		for round := 0; round < 40 && v == nil; round++ {
-			enum.All(64, func() {
-				rn.cnt.RandRuns++
-				v1, t1, p1 := rn.evalOnce(in, cl)
-				produced = produced || p1
-				if p1 && v1 == nil {
-					picked[rn.lastLeader] = true
-				}
-				if v1 != nil && v == nil {
-					v, trace = v1, t1
-				}
-			})
-			if !produced || len(picked) >= voters {
-				break
-			}
-		}
+		})
 	} else {
 		v, trace, produced = rn.evalOnce(in, cl)
 	}
@@ -1475,7 +1486,7 @@ func main() {
 			"regionsim models a TiKV 5.0 store applying PD's commands (simple conf changes, ChangePeerV2 enter/leave with a single change applied as a simple change, leader transfer, refusals); it is cross-checked at start-up and at every executed step against the steps' own IsFinish / ConfVerChanged",
 			"pkg/mock/mockcluster is the opt.Cluster; store states are built with core.StoreInfo options (heartbeat in the far future for up stores so that wall-clock time does not matter)",
 			"the oracle is written from the property statement: leader never removed/demoted (joint: not at leave), leadership only to a present non-learner non-demoting peer, <=1 peer per store, voters (both joint configurations) >= min(origin, target), CheckSafety holds at each step's turn (also while the added peer is pending), final peers/roles/leader equal the request",
-			"the random leader pick of CreateScatterRegionOperator is enumerated through the vrand shim until every voter was picked",
+			"every outcome of the random leader draw of CreateScatterRegionOperator is enumerated through the vrand shim (package rewritten with flag r); which voter a draw selects depends on map order, every leader is covered by the inputs with an explicit target leader; because of that map order the operator count of the scatter inputs without target leader may differ by a few between runs",
 		}}
 	if err := evidence.Write(ev); err != nil {
 		fmt.Fprintf(os.Stderr, "INFRA: write evidence: %v\n", err)
